@@ -165,6 +165,14 @@ static bool civilOp(const Toks& t) {
     out = fieldsStr(r);
     return true;
   }
+  if (op == "nwi" || op == "pwi") {
+    // the idioms documented in civil_time.h: next_weekday(d - 1, wd) / prev_weekday(d + 1, wd)
+    if (!ints(t, 1, 4, v)) return false;
+    cctz::civil_day c(v[0], v[1], v[2]);
+    cctz::civil_day r = (op == "nwi") ? cctz::next_weekday(c - 1, wdOf(v[3])) : cctz::prev_weekday(c + 1, wdOf(v[3]));
+    out = fieldsStr(r) + " " + std::to_string(wdIdx(cctz::get_weekday(r)));
+    return true;
+  }
   return false;
 }
 
